@@ -444,6 +444,11 @@ pub fn n_workers() -> usize {
 }
 
 pub const BIG_STACK: usize = 256 << 20;
+/// stack size of the threads that call the engine: 256 MiB by default (recursion bounded by the input length cannot
+/// kill a campaign); workers that check crash-class claims set VERIF_STACK_MB=8 (the reference environment)
+pub fn stack_size() -> usize {
+    std::env::var("VERIF_STACK_MB").ok().and_then(|s| s.parse::<usize>().ok()).map(|m| m << 20).unwrap_or(BIG_STACK)
+}
 
 /// Runs `total_cases` proptest cases of `strat` split over the worker threads (256 MiB stacks).
 /// `test` returns `Err(Fail)` for a property failure; the failing value is shrunk by proptest and the
@@ -465,7 +470,7 @@ where
             let test = &test;
             let stop = &stop;
             std::thread::Builder::new()
-                .stack_size(BIG_STACK)
+                .stack_size(stack_size())
                 .spawn_scoped(sc, move || {
                     let seed = derive_seed(rep.seed, family, w as u64);
                     let mut bytes = [0u8; 32];
@@ -555,7 +560,7 @@ where
             let test = &test;
             let next = &next;
             std::thread::Builder::new()
-                .stack_size(BIG_STACK)
+                .stack_size(stack_size())
                 .spawn_scoped(sc, move || {
                     let mut local = Local::new();
                     let mut fails = 0;
@@ -601,7 +606,7 @@ where
             let test = &test;
             let next = &next;
             std::thread::Builder::new()
-                .stack_size(BIG_STACK)
+                .stack_size(stack_size())
                 .spawn_scoped(sc, move || {
                     let mut local = Local::new();
                     let mut fails = 0;
